@@ -303,7 +303,7 @@ fn strategy(tier: Tier) -> BoxedStrategy<Case> {
     std_cfg.dup_terms = true;
     let facts = prop_oneof![
         3 => gen::facts(free).prop_map(|f| (f, PathSel::Builder)),
-        2 => (gen::facts(std_cfg), prop_oneof![3 => Just(PathSel::Bin(3)), 1 => Just(PathSel::Bin(2)), 2 => Just(PathSel::Bin(1)), 1 => Just(PathSel::Jax), 1 => Just(PathSel::RoundTrip)]).prop_map(|(f, p)| (f, p)),
+        2 => (gen::facts(std_cfg), prop_oneof![3 => Just(PathSel::Bin(3)), 1 => Just(PathSel::Bin(2)), 2 => Just(PathSel::Bin(1)), 1 => Just(PathSel::Jax), 1 => Just(PathSel::JaxT), 1 => Just(PathSel::RoundTrip)]).prop_map(|(f, p)| (f, p)),
     ];
     (
         facts,
